@@ -15,7 +15,7 @@ def run(ctx):
     base = int(ctx.seed) if str(ctx.seed).lstrip("-").isdigit() else 1
     # every run is a fresh server instance (empty configuration first, then progressively populated); several
     # shorter runs instead of one long one: independent histories, and a blocked transaction log stays contained
-    runs = [(base, 700, 0, True)] + ([(base + 1000 * i, 900, 0, False) for i in range(1, 8)] if big else [])
+    runs = [(base, 700, 0, True)] + ([(base + 1000 * i, 900, 0, False) for i in range(1, 6)] if big else [])
     runs.append((base + 7919, 1200 if big else 200, 2, False))     # GNMI_SET_SIZE_LIMIT=2: the limit checks of Set
     res = None
     all_lines = []
@@ -75,11 +75,9 @@ def fuzz(ctx, res):
     extra = []
     if os.path.realpath(vlib.REPO) != "/repo":
         extra = ["-modfile=" + os.path.join(ctx.work, "alt.mod")]
-    cdir = os.path.join(ctx.work, "fuzzcache")
     total = 0
-    for target, secs in (("FuzzSet", 150), ("FuzzGet", 120), ("FuzzLeafSelection", 60)):
-        rc, out, dt = vlib.sh(["go", "test", "-tags", "verif"] + extra + ["-run", "^$", "-fuzz", "^" + target + "$", "-fuzztime", "%ds" % secs,
-                               "-test.fuzzcachedir", cdir, "./cmd/c12"], cwd=h, timeout=secs + 600)
+    for target, secs in (("FuzzSet", 120), ("FuzzGet", 90), ("FuzzLeafSelection", 45)):
+        rc, out, dt = vlib.sh(["go", "test", "-tags", "verif"] + extra + ["-run", "^$", "-fuzz", "^" + target + "$", "-fuzztime", "%ds" % secs, "./cmd/c12"], cwd=h, timeout=secs + 600)
         execs = 0
         for ln in out.split("\n"):
             if "execs:" in ln:
